@@ -641,6 +641,50 @@ def check(model, rep, tier):
               'and dispatched to %s(%s)' % (nm, fn_name, ', '.join(args)),
               {'answers': vals}, line=blt[0].lineno,
               witness='%s() inside a functionalised loop body' % nm)
+  # the user's frame is recognised by `f_locals[<scope name>] is <scope>`: no
+  # function of the run-time library may hold the scope object under a name that
+  # generated code uses for it, or its own frame is the innermost match (read on
+  # the source as written: a helper's frame exists even if its body is trivial)
+  import re as _re
+  fm_ = model.module('malt/converters/functions.py')
+  roots = set()
+  for c_ in ast.walk(ast.parse(fm_.src)):
+    if isinstance(c_, ast.Call) and isinstance(c_.func, ast.Attribute) and \
+        c_.func.attr == 'new_symbol' and c_.args and isinstance(c_.args[0], ast.Constant) \
+        and isinstance(c_.args[0].value, str) and 'scope' in c_.args[0].value:
+      roots.add(c_.args[0].value)
+  if not roots:
+    raise core.AnalysisError('scope-object name roots not found in functions.py')
+  pat_ = _re.compile(r'^(%s)(_\d+)?$' % '|'.join(sorted(_re.escape(r_) for r_ in roots)))
+  shadows = []
+  n_fn = 0
+  for rel_ in (API, PYB, 'malt/operators/function_wrappers.py'):
+    raw = ast.parse(model.module(rel_).src)
+    for f_ in ast.walk(raw):
+      if not isinstance(f_, (ast.FunctionDef, ast.AsyncFunctionDef, ast.Lambda)):
+        continue
+      n_fn += 1
+      names_ = {a.arg for a in f_.args.posonlyargs + f_.args.args + f_.args.kwonlyargs}
+      if f_.args.vararg:
+        names_.add(f_.args.vararg.arg)
+      if f_.args.kwarg:
+        names_.add(f_.args.kwarg.arg)
+      body_ = f_.body if isinstance(f_.body, list) else [f_.body]
+      for b_ in body_:
+        for x_ in ast.walk(b_):
+          if isinstance(x_, ast.Name) and isinstance(x_.ctx, ast.Store):
+            names_.add(x_.id)
+      for nm_ in sorted(names_):
+        if pat_.match(nm_):
+          shadows.append('%s:%s:%s' % (rel_, getattr(f_, 'name', '<lambda>'), nm_))
+  rep.unit('run-time library functions scanned for scope-named locals', n_fn)
+  rep.check(not shadows, 'BI-FRAME', '%s:no-scope-named-local' % API,
+            'a function of the run-time library has a parameter / local named like '
+            'the scope object of generated code (%s): when it holds that object its '
+            'frame is taken for the user\'s frame by eval / locals / globals' %
+            sorted(roots), {'shadows': shadows},
+            witness='eval("x") in a converted function: NameError, or the '
+            'library module\'s globals')
   ff = model.func(PYB, '_find_originating_frame')
   stop_flag, stop_value = None, None
   loops = [n for n in ast.walk(ff.node) if isinstance(n, ast.While)]
